@@ -394,6 +394,121 @@ def _accept_of(node, param, field):
     )
 
 
+OPERATOR_FUNCS = {"add": ast.Add, "sub": ast.Sub, "mul": ast.Mult, "truediv": ast.Div, "pow": ast.Pow, "matmul": ast.MatMult, "or_": ast.BitOr,
+                  "floordiv": ast.FloorDiv, "mod": ast.Mod, "and_": ast.BitAnd, "xor": ast.BitXor}
+
+
+def _const_table(prog, f, name):
+    """a module-level dict display with string keys bound once to `name` (visible from f): {key: value node}, else None"""
+    kind, q = prog.resolve(f.module, name)
+    if kind != "var":
+        return None
+    mod, g = q.rsplit(".", 1)
+    vals = prog.modules[mod].globals.get(g, [])
+    if len(vals) != 1 or not isinstance(vals[0], ast.Dict):
+        return None
+    d = vals[0]
+    if not all(k is not None and is_str_const(k) for k in d.keys):
+        return None
+    # never written elsewhere
+    for fn in prog.functions.values():
+        for n in ast.walk(fn.node):
+            if isinstance(n, ast.Subscript) and isinstance(n.ctx, (ast.Store, ast.Del)) and isinstance(n.value, ast.Name) and n.value.id == g:
+                return None
+            if isinstance(n, ast.Call) and isinstance(n.func, ast.Attribute) and isinstance(n.func.value, ast.Name) and n.func.value.id == g \
+                    and n.func.attr in ("update", "pop", "setdefault", "clear", "popitem", "__setitem__"):
+                return None
+    return {k.value: v for k, v in zip(d.keys, d.values)}
+
+
+def _specialise(prog, f, var, value):
+    """Partial evaluation of f's body for `var == value` (a string): ('return', expression with locals expanded, stmt),
+    ('raise', stmt) or ('falloff',).  Tests on `var` are decided: ==, !=, in / not in a literal container or a constant
+    dict; a subscript `TABLE[var]` becomes the table's entry; operator.add(a, b) becomes a + b."""
+    import copy
+
+    env = {}
+
+    def expand(e):
+        e = copy.deepcopy(e)
+
+        class T(ast.NodeTransformer):
+            def visit_Name(s_, n):
+                if isinstance(n.ctx, ast.Load) and n.id in env:
+                    return copy.deepcopy(env[n.id])
+                return n
+
+            def visit_Subscript(s_, n):
+                s_.generic_visit(n)
+                if isinstance(n.value, ast.Name) and ((isinstance(n.slice, ast.Constant) and n.slice.value == value)
+                                                       or (isinstance(n.slice, ast.Name) and n.slice.id == var)):
+                    t = _const_table(prog, f, n.value.id)
+                    if t is not None and value in t:
+                        return copy.deepcopy(t[value])
+                return n
+
+            def visit_Call(s_, n):
+                s_.generic_visit(n)
+                d = dotted(n.func) or ""
+                if d.startswith("operator.") and d.split(".")[1] in OPERATOR_FUNCS and len(n.args) == 2 and not n.keywords:
+                    return ast.copy_location(ast.BinOp(left=n.args[0], op=OPERATOR_FUNCS[d.split(".")[1]](), right=n.args[1]), n)
+                return n
+
+        return T().visit(e)
+
+    def decide(t):
+        if isinstance(t, ast.UnaryOp) and isinstance(t.op, ast.Not):
+            r = decide(t.operand)
+            return None if r is None else not r
+        if isinstance(t, ast.BoolOp):
+            rs = [decide(v) for v in t.values]
+            if any(r is None for r in rs):
+                return None
+            return all(rs) if isinstance(t.op, ast.And) else any(rs)
+        if isinstance(t, ast.Compare) and len(t.ops) == 1 and isinstance(t.left, ast.Name) and t.left.id == var:
+            op, c = t.ops[0], t.comparators[0]
+            if isinstance(op, (ast.Eq, ast.NotEq)) and is_str_const(c):
+                return (c.value == value) == isinstance(op, ast.Eq)
+            if isinstance(op, (ast.In, ast.NotIn)):
+                members = None
+                if isinstance(c, (ast.Tuple, ast.List, ast.Set)) and all(is_str_const(e) for e in c.elts):
+                    members = {e.value for e in c.elts}
+                elif isinstance(c, ast.Name):
+                    tb = _const_table(prog, f, c.id)
+                    members = set(tb) if tb is not None else None
+                if members is not None:
+                    return (value in members) == isinstance(op, ast.In)
+        return None
+
+    def run(stmts):
+        for st in stmts:
+            if isinstance(st, ast.Expr) and isinstance(st.value, ast.Constant):
+                continue
+            if isinstance(st, ast.Assign) and len(st.targets) == 1 and isinstance(st.targets[0], ast.Name):
+                if st.targets[0].id == var:
+                    continue
+                env[st.targets[0].id] = expand(st.value)
+                continue
+            if isinstance(st, ast.If):
+                r = decide(st.test)
+                if r is None:
+                    raise AnalysisError(f"{f.qual}: cannot decide `{unparse(st.test)}` for {var} == {value!r}")
+                out = run(st.body if r else st.orelse)
+                if out is not None:
+                    return out
+                continue
+            if isinstance(st, ast.Return):
+                return ("return", expand(st.value) if st.value is not None else ast.Constant(value=None), st)
+            if isinstance(st, ast.Raise):
+                return ("raise", st)
+            if isinstance(st, ast.Pass):
+                continue
+            raise AnalysisError(f"{f.qual}: unmodelled statement `{short(st)}` in the operator dispatch")
+        return None
+
+    return run(f.body) or ("falloff",)
+
+
 def r2_3(prog, rep):
     sm, _ = extract_scan_token(prog)
     kind2lex = {k: lx for lx, (k, _) in sm.table.items()}
@@ -406,22 +521,16 @@ def r2_3(prog, rep):
             kvar = s.targets[0].id
     if kvar is None:
         raise AnalysisError("Resolver.visitBinaryExpr: `otype = expr.operator.kind` not found")
-    branches = {}
-    default = None
-    for s in f.body:
-        node = s
-        while isinstance(node, ast.If):
-            t = node.test
-            if not (isinstance(t, ast.Compare) and isinstance(t.left, ast.Name) and t.left.id == kvar
-                    and isinstance(t.ops[0], ast.Eq) and is_str_const(t.comparators[0])):
-                raise AnalysisError(f"Resolver.visitBinaryExpr: unmodelled test `{unparse(t)}` (dict dispatch etc. is not modelled)")
-            branches[t.comparators[0].value] = node
-            if len(node.orelse) == 1 and isinstance(node.orelse[0], ast.If):
-                node = node.orelse[0]
-            else:
-                if node.orelse:
-                    default = node.orelse
-                node = None
+    known_kinds = set()
+    for n in ast.walk(f.node):
+        if isinstance(n, ast.Compare) and isinstance(n.left, ast.Name) and n.left.id == kvar:
+            for c in n.comparators:
+                if is_str_const(c):
+                    known_kinds.add(c.value)
+                elif isinstance(c, (ast.Tuple, ast.List, ast.Set)):
+                    known_kinds |= {e.value for e in c.elts if is_str_const(e)}
+                elif isinstance(c, ast.Name) and _const_table(prog, f, c.id) is not None:
+                    known_kinds |= set(_const_table(prog, f, c.id))
     from .. import grammar as G
 
     ex = G.extract(prog)
@@ -446,33 +555,32 @@ def r2_3(prog, rep):
                     stack.append(v[1])
     for kind in sorted(bin_kinds):
         lx = kind2lex.get(kind)
-        br = branches.get(kind)
-        if br is None:
-            # must reach the final raise
-            ok = default is not None and block_raises(default)
+        out = _specialise(prog, f, kvar, kind)
+        if out[0] == "raise":
+            ok = lx not in RESOLVER_OPS and lx != "~"
             obl(rep, f, f.node, "R2.3", ok, f"operator `{lx}` ({kind}) is not a formula operator: reaches the final raise",
-                "comparison operators are only legal inside calls", f"kind {kind} has no branch and the chain does not end in raise")
+                "comparison operators are only legal inside calls", f"formula operator `{lx}` ({kind}) is rejected by the resolver")
             continue
-        body = br.body
-        ok = len(body) == 1 and isinstance(body[0], ast.Return)
-        why = ""
-        if ok:
-            v = body[0].value
-            if lx == "~":
-                ok = (isinstance(v, ast.BinOp) and isinstance(v.op, ast.Add)
-                      and isinstance(v.left, ast.Call) and dotted(v.left.func) == "Response" and len(v.left.args) == 1
-                      and _accept_of(v.left.args[0], p, "left") and _accept_of(v.right, p, "right"))
-                why = "`~` resolves to Response(left) + right"
-            else:
-                want = RESOLVER_OPS.get(lx)
-                ok = (want is not None and isinstance(v, ast.BinOp) and isinstance(v.op, want)
-                      and _accept_of(v.left, p, "left") and _accept_of(v.right, p, "right"))
-                why = f"`{lx}` resolves to left {want.__name__ if want else '?'} right, operands in source order"
-        obl(rep, f, br, "R2.3", ok, f"operator `{lx}` ({kind}) -> `{short(body[0].value) if body and isinstance(body[0], ast.Return) else '?'}`",
-            why, f"formula operator `{lx}` is resolved by `{short(body[0]) if body else ''}`; expected {why}")
-    for kind in sorted(set(branches) - bin_kinds):
-        rep.info("R2.3", f.loc(branches[kind]), f.qual, f"branch for kind {kind}", "the parser never builds a Binary node with this kind")
-    obl(rep, f, f.node, "R2.3", default is not None and block_raises(default) and not cfg_of(f).falls_off(),
+        if out[0] != "return":
+            obl(rep, f, f.node, "R2.3", False, f"operator `{lx}` ({kind}) is resolved", "", f"kind {kind} falls off the end of visitBinaryExpr (None)")
+            continue
+        v = out[1]
+        if lx == "~":
+            ok = (isinstance(v, ast.BinOp) and isinstance(v.op, ast.Add)
+                  and isinstance(v.left, ast.Call) and dotted(v.left.func) == "Response" and len(v.left.args) == 1
+                  and _accept_of(v.left.args[0], p, "left") and _accept_of(v.right, p, "right"))
+            why = "`~` resolves to Response(left) + right"
+        else:
+            want = RESOLVER_OPS.get(lx)
+            ok = (want is not None and isinstance(v, ast.BinOp) and isinstance(v.op, want)
+                  and _accept_of(v.left, p, "left") and _accept_of(v.right, p, "right"))
+            why = f"`{lx}` resolves to left {want.__name__ if want else '?'} right, operands in source order"
+        obl(rep, f, out[2], "R2.3", ok, f"operator `{lx}` ({kind}) -> `{short(v)}`",
+            why, f"formula operator `{lx}` is resolved by `{short(v)}`; expected {why}")
+    for kind in sorted(known_kinds - bin_kinds):
+        rep.info("R2.3", f.loc(f.node), f.qual, f"branch for kind {kind}", "the parser never builds a Binary node with this kind")
+    unk = _specialise(prog, f, kvar, "<no such kind>")
+    obl(rep, f, f.node, "R2.3", unk[0] == "raise" and not cfg_of(f).falls_off(),
         "unknown operator kinds end in raise (not None)")
     # unary
     f = prog.fn("resolver.Resolver.visitUnaryExpr")
